@@ -9,6 +9,22 @@ CLAIMS = {
   'Seeded search over generated well-typed sequential programs x argv x word size x stack (generous and measured minimum) x poisoned free stack; every output byte and flag of the real compiler\'s code, executed on the simulated Sphinx machine, is compared with an independent source-level reference interpreter; all monitors run.',
   'SVM is a home-made stub of the Sphinx emulator calibrated on upstream tests/test_codegen.py (52/52) and the README examples; reference model is my reading of the README; sampling, not proof.',
   'deterministic simulation: seeded program/input/config generation, emitted code stepped on a simulated machine with rollback oracle, differential oracle vs reference model'),
+ 'C09': ('exploration', '3 C09',
+  'Boundary grid x every operator and cast x four lowering positions (value, branch, !truth_is_defeat under try/undo and under try/stop) x word sizes {2,3,4}, operands passed through argv so nothing folds, plus seeded operand rows; the emitted code runs on the simulated machine (the defeat positions need its Turing-jump oracle) and every printed result is compared with the reference interpreter.',
+  'Weak fit for the technique (the quantifier is a value grid); the simulator is needed because the result exists only as behaviour of emitted code. SVM/reference assumptions as for C01; floor div/mod assumed.',
+  'deterministic simulation of emitted code over an enumerated value grid plus seeded sampling; differential oracle'),
+ 'C13': ('exploration', '3 C13',
+  'Every byte value singly / as character immediate / at first-middle-last position, special-byte pairs (all 65536 pairs in thorough), constant arrays of all lengths 0..40 in four storage classes, seeded random strings and literal spellings; the strict SVM assembler must accept the output and the running program must print, index and measure exactly the denoted bytes.',
+  'Weak fit (value space); the SVM assembler\'s strictness stands in for the real Sphinx assembler.',
+  'deterministic simulation of emitted code over an enumerated constant space plus seeded sampling; strict assembler as oracle for well-formedness'),
+ 'C14': ('exploration', '3 C14',
+  'Seeded constant expressions (depth <= 5, boundary literals, const locals/globals, optional run-time leaves) compiled as written and as a run-time twin with every constant lifted into a variable; both must commit the reference history at word sizes {2,3,4}; compile-time rejections are accepted only when the twin faults at run time. One genuine defect (unbounded folding, F4) is a recorded known finding, recognised by an exact model of it.',
+  'Weak fit (value/program space). Known finding F4 is matched only when the observed output equals the unbounded-folding model exactly.',
+  'deterministic simulation of program pairs (constant form / run-time twin) on the simulated machine; differential oracle vs reference model'),
+ 'C17': ('exploration', '3 C17',
+  'All 65536 16-bit integers, all 256 bytes, both bools, byte arrays/strings of every length 0..64 in eight storage classes, seeded boundary/random integers at 24/32/64 bits; guard variables and a neighbouring array checked by the program itself, M-mem on every library store, selected jobs re-run at the measured minimal stack with poisoned free memory.',
+  'Exhaustive only for the 16-bit sweep, bytes, bools and lengths (flagged in coverage.sweep16_complete); SVM assumptions as for C01.',
+  'deterministic simulation: exhaustive sweep executed on the simulated machine with memory monitor and stack-exhaustion / poison faults'),
 }
 
 def main():
